@@ -5,7 +5,8 @@ use crate::core::*;
 use crate::props::bddutil::*;
 use crate::tt::{self, TT};
 use crate::walk::*;
-use rsdd::repr::{DDNNFPtr, WmcParams};
+use rsdd::builder::BottomUpBuilder;
+use rsdd::repr::{DDNNFPtr, VarLabel, WmcParams};
 use rsdd::util::semirings::RealSemiring;
 use serde_json::{json, Value};
 
@@ -195,7 +196,7 @@ fn make_params(nv: usize, tier: Tier) -> Vec<(Vec<(u32, u32)>, WmcParams<RealSem
 }
 
 fn case_json(c: &Case) -> Value {
-    json!({"kind": "smooth", "n": c.n, "extra_vars": c.extra, "order": c.order, "function": format!("{:#x}", c.f), "depth": c.k, "appended": c.appended})
+    json!({"kind": "smooth", "n": c.n, "extra_vars": c.extra, "order": c.order, "function": format!("{:#x}", c.f), "depth": c.k, "appended": c.appended, "smooth_while_growing": c.appended > 0})
 }
 
 /// add `appended` variables to a live manager with new_var
@@ -205,14 +206,38 @@ fn grow<'a>(b: &'a AllBuilder<'a>, appended: usize) {
     }
 }
 
-fn run_config(n: usize, extra: usize, order: &[usize], table_cap: usize, ctx: &Ctx, fstep: usize, appended: usize) -> Report {
+/// the same, but the manager is used for smoothing before every growth step (smooth, new_var,
+/// smooth, new_var, ...): whatever smoothing derives from the order must follow the order
+fn grow_with_smoothing<'a>(b: &'a AllBuilder<'a>, initial: usize, order: &[usize], appended: usize) {
+    for step in 0..appended {
+        let m = initial + step;
+        let mut ps: Vec<rsdd::repr::BddPtr<'a>> = vec![rsdd::repr::BddPtr::PtrTrue, rsdd::repr::BddPtr::PtrFalse];
+        if m >= 1 {
+            ps.push(b.var(VarLabel::new(order[m - 1] as u64), true));
+        }
+        if m >= 2 {
+            let x = b.var(VarLabel::new(order[0] as u64), false);
+            let y = b.var(VarLabel::new(order[m - 1] as u64), true);
+            ps.push(b.and(x, y));
+        }
+        for p in ps {
+            for k in 0..=m {
+                let _ = b.smooth(p, k);
+            }
+        }
+        b.new_var(true);
+    }
+}
+
+#[allow(clippy::too_many_arguments)]
+fn run_config_h(n: usize, extra: usize, order: &[usize], table_cap: usize, ctx: &Ctx, fstep: usize, appended: usize, smooth_while_growing: bool) -> Report {
     let mut rep = Report::default();
     rep.exhaustive = true;
     let nv = n + extra;
     let params = make_params(nv, ctx.tier);
     let total = 1u64 << (1u64 << n);
     let b = small_builder(&order[..nv - appended], table_cap);
-    if let Err(e) = guarded(|| grow(&b, appended)) {
+    if let Err(e) = guarded(|| if smooth_while_growing { grow_with_smoothing(&b, nv - appended, order, appended) } else { grow(&b, appended) }) {
         rep.violation("smooth:panic", format!("adding {} variables to a {}-variable manager panicked: {}", appended, nv - appended, e), json!({"kind": "smooth", "n": n, "extra_vars": extra, "order": order, "function": "0x0", "depth": 0, "appended": appended}));
         return rep;
     }
@@ -258,24 +283,26 @@ pub fn run(ctx: &Ctx) -> Report {
     let mut rep = Report::new(
         "every Boolean function of n variables (n <= 3 quick, 4 thorough; plus one unused builder variable) x every variable order x every smoothing depth k = 0..#vars: function preserved, every path tests levels 0..k-1 exactly once in order, and for k = #vars the count under integer (low, high) weights from {(1,1),(1,2),(2,3),(3,5),(5,2),(0,3),(2,0)} equals the brute-force sum; distinct = (function, order, depth), non-trivial = function not constant",
     );
-    let mut items: Vec<(usize, usize, Vec<usize>, usize, usize, usize)> = Vec::new();
+    let mut items: Vec<(usize, usize, Vec<usize>, usize, usize, usize, bool)> = Vec::new();
     let ns: Vec<(usize, usize)> = match ctx.tier {
         Tier::Quick => vec![(1, 0), (2, 0), (2, 1), (3, 0), (3, 1)],
         Tier::Thorough => vec![(1, 0), (2, 0), (2, 1), (3, 0), (3, 1), (4, 0), (4, 1)],
     };
     for (n, extra) in ns {
         for o in permutations(n + extra) {
-            items.push((n, extra, o.clone(), 2, 0, 1));
+            items.push((n, extra, o.clone(), 2, 0, 1, false));
         }
         // one configuration at the library's default table capacity
-        items.push((n, extra, (0..n + extra).rev().collect(), 0, 0, 1));
+        items.push((n, extra, (0..n + extra).rev().collect(), 0, 0, 1, false));
         // managers grown by new_var: every order of the initial variables, 1..#vars appended
         let nv = n + extra;
         for a in 1..=nv {
             for o in permutations(nv - a) {
                 let mut full = o.clone();
                 full.extend(nv - a..nv);
-                items.push((n, extra, full, 2, a, 1));
+                items.push((n, extra, full.clone(), 2, a, 1, false));
+                // ... and the same manager used for smoothing before every growth step
+                items.push((n, extra, full, 2, a, 1, true));
             }
         }
     }
@@ -284,18 +311,19 @@ pub fn run(ctx: &Ctx) -> Report {
     // under every order in thorough (6 orders in quick)
     if ctx.tier == Tier::Quick {
         for o in permutations(4) {
-            items.push((4, 0, o, 2, 0, 16));
+            items.push((4, 0, o, 2, 0, 16, false));
         }
     }
     {
         let step5 = ctx.tier.pick(26_843_543, 4_194_301);
         let orders5: Vec<Vec<usize>> = if ctx.tier == Tier::Quick { permutations(5).into_iter().step_by(23).collect() } else { permutations(5) };
         for o in orders5 {
-            items.push((5, 0, o, 2, 0, step5));
+            items.push((5, 0, o, 2, 0, step5, false));
         }
-        items.push((5, 0, vec![2, 0, 1, 3, 4], 2, 2, step5));
+        items.push((5, 0, vec![2, 0, 1, 3, 4], 2, 2, step5, false));
+        items.push((5, 0, vec![2, 0, 1, 3, 4], 2, 2, step5, true));
     }
-    let r = par_run(ctx, &items, |_, (n, extra, o, cap, a, step)| run_config(*n, *extra, o, *cap, ctx, *step, *a));
+    let r = par_run(ctx, &items, |_, (n, extra, o, cap, a, step, sg)| run_config_h(*n, *extra, o, *cap, ctx, *step, *a, *sg));
     // the exported unweighted counter (smooth over all manager variables + unit-weight count)
     // on wide managers: counts up to 2^63 - 1 against the closed form
     let wides: Vec<usize> = ctx.tier.pick(vec![8, 20, 33, 54, 60, 63], (4..=63).step_by(3).chain([63usize]).collect());
@@ -329,7 +357,11 @@ pub fn replay(_ctx: &Ctx, case: &Value) -> Report {
     let appended = case["appended"].as_u64().unwrap_or(0) as usize;
     let appended = appended.min(order.len());
     let b = small_builder(&order[..order.len() - appended], 2);
-    grow(&b, appended);
+    if case["smooth_while_growing"].as_bool().unwrap_or(false) {
+        grow_with_smoothing(&b, order.len() - appended, &order, appended);
+    } else {
+        grow(&b, appended);
+    }
     let c = Case { n, extra, order: order.clone(), f, k, appended };
     let mut ev = 0;
     if let Some((key, what)) = check_case(&b, &c, &params, &mut ev) {
